@@ -99,6 +99,21 @@ def all_subsets(xs):
 
 # stored witnesses (DESIGN.md par.7, C15) - always run first
 CORPUS = [
+    # points with coordinates / diameters of extreme magnitude: a positive diameter must still be written as a positive number
+    {"init": "factory", "kind": "corpus:tiny-and-huge-coordinates-and-diameters",
+     "ops": [seg(pt={"x": "1e-16", "d": "1e-16"}), seg(parent=0, ty="dendrite", pt={"x": "-5e-324", "d": "5e-324"}),
+             seg(parent=1, ty="dendrite", prox=False, pt={"x": "1e300", "d": "1e300"}),
+             seg(parent=1, ty="axon", group="axon_1", pt={"x": "-1e300", "d": "2.5e-310"}),
+             seg(parent=0, ty="axon", group="axon_1", pt={"x": "123456789.125", "d": "4.9e-16"})] + PROPS3},
+    # flags given as numpy.bool_ / 1 / 0, and explicit ids beyond 2**53 and 2**63
+    {"init": "factory", "kind": "corpus:flag-forms-and-huge-ids",
+     "ops": [seg(flag_form="numpy"), seg(parent=0, group="dend_1", ty="dendrite", flag_form="int"),
+             seg(parent=1, group="dend_1", ty="dendrite", flag_form="numpy", reorder=False, optimise=False, seg_id=9223372036854775808),
+             seg(parent=2, ty="axon", flag_form="int", seg_id=9223372036854775809),
+             {"op": "unbranched", "npoints": 3, "parent": 0, "frac": 4, "frac_int": False, "group": "axon_1", "conv": True,
+              "ty": "axon", "reorder": True, "optimise": True, "flag_form": "numpy"},
+             seg(parent=0, ty="soma", seg_id=9007199254740993, flag_form="int", conv=True),
+             seg(parent=0, ty="soma", seg_id=9223372036854775808)] + PROPS3},
     # explicit id 0: in use as the first segment's explicit id / as an automatic id -> refused; free -> honoured as 0
     {"init": "factory", "kind": "corpus:explicit-id-0-twice", "ops": [seg(seg_id=0), seg(seg_id=0, parent=0, ty="dendrite")]},
     {"init": "factory", "kind": "corpus:explicit-id-0-after-automatic-0",
@@ -293,6 +308,10 @@ def gen_case(rng, long=False):
     if rng.random() < 0.6:
         have = {o["kind"] for o in ops if o["op"] == "prop"}
         ops += [p for p in PROPS3 if p["kind"] not in have]
+    # the three flags come as Python bools, numpy.bool_ or 1 / 0 (same truth value, the model takes that)
+    for o in ops:
+        if o["op"] in ("seg", "unbranched"):
+            o["flag_form"] = rng.choice(["bool", "bool", "numpy", "int"])
     # optional arguments equal to their documented default are left out half of the time
     ops = [omit_defaults(o, names=[a for a in list(SEG_DEFAULTS) + ["neuro_lex_id"] if rng.random() < 0.5])
            if o["op"] in ("seg", "unbranched", "group") else o for o in ops]
@@ -466,7 +485,7 @@ def tree_eligible(c):
     """the tree comparison covers sequences without a reload (an empty container is not written to the file) and in
     which the default groups are the builder's own (their notes)"""
     for o in c["ops"]:
-        if o["op"] == "reload":
+        if o["op"] == "reload" or o.get("pt"):
             return False
         if o["op"] in ("group", "ugroup") and o["id"] in DEFAULT_NAMES:
             return False
@@ -821,6 +840,34 @@ def run(ck):
     results = []
     for k in range(0, len(payload), 600):
         results += ck.impl("c15_impl.py", {"cases": payload[k:k + 600], "tree_order": tree_order}, timeout=900)["results"]
+
+    # ---- environment: the fixed sequences again under python -O, another hash seed, another working directory
+    def canon_state(st):
+        return {"segs": st["segs"], "props": st["props"],
+                "groups": [(g["id"], sorted(g["members"]), sorted(g["includes"]), g["nlex"]) for g in st["groups"]]}
+
+    def canon_run(r):
+        tr = [canon_state(t["state"]) if "state" in t else t for t in r["trace"]]
+        f = r["final"]
+        if f and "state" in f:
+            f = {"state": canon_state(f["state"]), "validate": f.get("validate"), "xsd": f.get("xsd"), "probes": f.get("probes"),
+                 "resolved": {k: (sorted(v) if isinstance(v, list) else v) for k, v in f.get("resolved", {}).items()}}
+        return {"trace": tr, "final": f}
+    env_cases = [dict(p, tree=False) for p in payload[:len(CORPUS)]]
+    for label, kw in (("python -O", {"pyflags": ["-O"]}), ("PYTHONHASHSEED=3", {"extra_env": {"PYTHONHASHSEED": "3"}}),
+                      ("cwd=/", {"cwd": "/"})):
+        try:
+            er = ck.impl("c15_impl.py", {"cases": env_cases}, timeout=300, **kw)["results"]
+        except Exception as e:  # noqa
+            ck.oblige("environment:%s:runs" % label, False, str(e)[-800:], kind="correspondence")
+            continue
+        diff = [i for i, (a, b) in enumerate(zip(results[:len(env_cases)], er)) if canon_run(a) != canon_run(b)]
+        ck.oblige("environment:%s:same-answers-as-default-run" % label, not diff, "differing corpus sequences: %s" % diff,
+                  kind="correspondence")
+        for i in diff[:1]:
+            ck.witness("C15:answers-depend-on-environment:" + label, "the same call sequence gives another cell under %s" % label,
+                       input=dict(env_cases[i], environment=label), expected="as in the default run",
+                       observed=canon_run(er[i])["final"])
 
     any_bad = False
     v0 = True
